@@ -127,6 +127,18 @@ CHECKS["C15"] = dict(
          "independent scalar python model of the documented dynamics.",
     technique="Lean 4 proofs about the issuing scans (closed form, conservation, order) + full-table differential check against model and independent scalar model",
     ref="§8 C15")
+CHECKS["C13"] = dict(
+    text="Theorems (special functions as abstract tables): Forest rows are non-negative and sum to 1 for p in [0,1]; the censoring step "
+         "(fold 1 - sum into the last bin) makes ANY table sum to exactly 1 and keeps it non-negative when the table is non-negative with "
+         "partial sum <= 1 (De Moor from the cdf differences of a non-decreasing table, Mirjalili demand); a Mirjalili row factorises as "
+         "(sum_d P(d)) * (sum_k split(k)), splits off the simplex contribute 0, and the multinomial split probabilities over all splits of the "
+         "order sum to (sum of category probabilities)^order = 1 (multinomial theorem proved over the list model). Hendrix: the property is "
+         "false of the implementation (demand support truncated) - recorded known finding, identified by the exact mass formula. "
+         "Tie: complete probability tables of the four real problems on a parameter grid: direct check finite/>=0/|sum-1|<=1e-4, and the "
+         "structural model fed with the implementation's primitive tables compared entrywise.",
+    technique="Lean 4 proofs of the distribution structure (censoring, factorisation, multinomial theorem) + full-table checks of the real problems",
+    ref="§8 C13", note="Accuracy, non-negativity and monotonicity of numpyro/jax special functions are assumptions checked numerically on the tables used. "
+                      "The identification of filtered product-space combinations with the list of splits is tied numerically, not proved.")
 PENDING = {}
 
 
